@@ -47,6 +47,7 @@ type Frame struct {
 	defers  []*ssa.Defer
 	recvd   bool
 	private    []privCell
+	privStructs []privStruct // struct-typed locals that never escape: other objects' havoc leaves them alone
 	privSl     map[ssa.Value]bool
 	loopIdx    *ssa.Phi
 	loopPhis   []*ssa.Phi
@@ -644,6 +645,11 @@ func (g *Gen) callWriteSet(cc *ssa.CallCommon, seen map[*ssa.Function]bool) (map
 func (g *Gen) fnWriteSet(fn *ssa.Function, seen map[*ssa.Function]bool) (map[string]bool, bool) {
 	key := funcKey(fn)
 	if c := g.contracts[key]; c != nil && !c.Inline {
+		if neverReturns(c) {
+			// a callee that never returns normally (ensures false: it always panics) contributes nothing to what a
+			// loop may have changed when control comes back to the loop head
+			return map[string]bool{}, false
+		}
 		if c.ModAll {
 			return nil, true
 		}
@@ -832,11 +838,28 @@ func (g *Gen) loopHeader(f *Frame, ci *cfgInfo, b *ssa.BasicBlock, preds []*ssa.
 	// havoc
 	comps, all := g.writeSet(f.fn, ci.loopOf[b.Index], map[*ssa.Function]bool{f.fn: true})
 	st := pre.clone()
+	touched := map[*ssa.Alloc]bool{}
+	for _, lb := range ci.loopOf[b.Index] {
+		for _, ins := range lb.Instrs {
+			if u, ok := ins.(*ssa.Store); ok {
+				if fa, ok := u.Addr.(*ssa.FieldAddr); ok {
+					if a, ok := fa.X.(*ssa.Alloc); ok {
+						touched[a] = true
+					}
+				}
+				if a, ok := u.Addr.(*ssa.Alloc); ok {
+					touched[a] = true
+				}
+			}
+			if a, ok := ins.(*ssa.Alloc); ok {
+				touched[a] = true // allocated inside the loop: a new object in every iteration
+			}
+		}
+	}
 	if all {
 		g.nfresh++
 		st = &State{comp: map[string]string{}, base: fmt.Sprintf("e%d", g.nfresh)}
 		g.assume(f.en, fmt.Sprintf("(<= %s %s)", g.now(pre), g.now(st)))
-		touched := map[*ssa.Alloc]bool{}
 		for _, lb := range ci.loopOf[b.Index] {
 			for _, ins := range lb.Instrs {
 				switch u := ins.(type) {
@@ -895,6 +918,11 @@ func (g *Gen) loopHeader(f *Frame, ci *cfgInfo, b *ssa.BasicBlock, preds []*ssa.
 					and(conds...), st.comp[c], g.get(g.topEntry, c), st.comp[c])
 			}
 		}
+	}
+	if !all {
+		// struct-typed locals that are not assigned in the loop keep their value although the loop assigns to other
+		// objects of the same struct type
+		g.preservePrivateStructs(f, pre, st, touched)
 	}
 	f.st = st
 	for _, phi := range phis {
@@ -1089,6 +1117,66 @@ func (g *Gen) preservePrivate(f *Frame, old, nw *State, skip map[*ssa.Alloc]bool
 	}
 }
 
+type privStruct struct {
+	alloc *ssa.Alloc
+	ref   string
+	typ   types.Type
+}
+
+func (g *Gen) preservePrivateStructs(f *Frame, old, nw *State, skip map[*ssa.Alloc]bool) {
+	for fr := f; fr != nil; fr = fr.parent {
+		for _, ps := range fr.privStructs {
+			if skip != nil && skip[ps.alloc] {
+				continue
+			}
+			u := types.Unalias(ps.typ).Underlying().(*types.Struct)
+			for k := 0; k < u.NumFields(); k++ {
+				comp, _, _ := g.fieldComp(ps.typ, k)
+				if g.get(nw, comp) == g.get(old, comp) {
+					continue
+				}
+				g.assume("true", fmt.Sprintf("(= (select %s %s) (select %s %s))", g.get(nw, comp), ps.ref, g.get(old, comp), ps.ref))
+			}
+		}
+	}
+}
+
+// isPrivateStructAlloc: a struct-typed local whose address is used only to read and assign it or its fields.
+func isPrivateStructAlloc(a *ssa.Alloc) bool {
+	refs := a.Referrers()
+	if refs == nil {
+		return false
+	}
+	for _, r := range *refs {
+		switch u := r.(type) {
+		case *ssa.Store:
+			if u.Val == a {
+				return false
+			}
+		case *ssa.UnOp, *ssa.DebugRef:
+		case *ssa.FieldAddr:
+			frefs := u.Referrers()
+			if frefs == nil {
+				return false
+			}
+			for _, fr := range *frefs {
+				switch fu := fr.(type) {
+				case *ssa.Store:
+					if fu.Val == u {
+						return false
+					}
+				case *ssa.UnOp, *ssa.DebugRef:
+				default:
+					return false
+				}
+			}
+		default:
+			return false
+		}
+	}
+	return true
+}
+
 type loopCtx struct {
 	rng       *ssa.Range
 	names     map[string]*ssa.Phi
@@ -1200,4 +1288,13 @@ func (g *Gen) loopDebugVals(fn *ssa.Function, blocks []*ssa.BasicBlock) map[stri
 		delete(out, n)
 	}
 	return out
+}
+
+func neverReturns(c *Contract) bool {
+	for _, e := range c.Ensures {
+		if id, ok := e.Expr.(*ast.Ident); ok && id.Name == "false" {
+			return true
+		}
+	}
+	return false
 }
